@@ -64,22 +64,22 @@ CHECKS = {
             "Generated workloads (puts, overwrites, removals, flushes, iteration, GC cycles with and without unflushed data and budgets, close/reopen) run with a handler on ~140 named points that snapshots the directory before every file-system step; "
             "consecutive images are diffed into single steps, and every byte prefix of every written region is synthesised as a torn state (a self-check counts steps that have no point in between as hook_gaps, so the enumeration is complete with respect to the code that ran). "
             "Each crash image is restored and opened; the open must succeed, every key must read a value it legitimately had between the last completed Flush/Close and the crash instant (for every instant the same bytes were on disk), never foreign bytes, and a generated suffix "
-            "with GC and reopen must then behave like the map model. Quick draws a few states per workload; thorough enumerates all states of every workload, and a sample of second-level crashes inside the recovery open. A further sub-campaign produces images that sequential workloads never reach, in three shapes: one call parked between its sub-steps while a Flush of another task completes; a GC cycle parked inside the cycle, a Flush suspended inside the flush pipeline and the GC cycle completing behind it; a Flush suspended while write calls complete, then the flush completing and the process dying before the next flush.",
+            "with GC and reopen must then behave like the map model. Quick draws a few states per workload; thorough enumerates all states of every workload, and a sample of second-level crashes inside the recovery open. A further sub-campaign produces images that sequential workloads never reach, in four shapes: one call parked between its sub-steps while a Flush of another task completes; a GC cycle parked inside the cycle, a Flush suspended inside the flush pipeline and the GC cycle completing behind it; a Flush suspended while write calls complete, then the flush completing and the process dying before the next flush; two overlapping Flush calls (the first suspended twice, the second running in between) with write calls completing inside them.",
             BASE + " Process-crash model (completed system calls are durable); positional writes of <=4 bytes are atomic. Enumeration is exhaustive per generated workload, not over all workloads.", "4 C03"),
     "C08": (True, "exploration", "small-scope exhaustive enumeration + rapid random sequences against a per-operation invariant oracle",
             "index.Index over the in-memory primary, driven under the caller contract the store keeps. Every ordered insertion of up to 5/6 keys of the universe {bucket}x{0,1}^3 followed by every single re-point, removal or re-insertion "
-            "under three flush placements, all insertions of up to 3/4 keys over a 3-symbol alphabet, plus random longer sequences over larger alphabets, key lengths and bit sizes (with an operation that pushes the bucket out of the in-memory pools so that it is read from disk) and bulk buckets of 150-450 keys read from disk; after EVERY operation each present key must resolve "
+            "under three flush placements, all insertions of up to 3/4 keys over a 3-symbol alphabet, plus random longer sequences over larger alphabets, key lengths and bit sizes (with an operation that pushes the bucket out of the in-memory pools so that it is read from disk) bulk buckets of 150-450 keys read from disk, and a boundary part in which a drawn flush writes its record list within the last four bytes below the index file-size limit (limit chosen from a measuring pass) before the bucket is read from disk; after EVERY operation each present key must resolve "
             "to its latest location, absent keys to nothing or to a present key's location, the decoded list must be sorted, prefix-free, one entry per key with each stored prefix a prefix of its owner, and Update/Remove may touch only the addressed entry. "
             "Exhaustive within the stated bound, exploration beyond it.",
             BASE + " The decoded list is read through a verif-tagged accessor (the public iterator only sees flushed buckets).", "4 C08"),
     "C09": (True, "exploration", "model-based property testing over configurations (rapid histories with re-bucketing and refused opens; all 289 bit-size pairs in the thorough tier)",
             "Random histories at one index bit size, clean close, reopen at another (translation), full read-back and iteration against the reference map, more history under the new size, repeated; refused opens with another index / primary "
-            "file-size limit must return ErrIndexWrongFileSize / ErrPrimaryWrongFileSize and leave the contents readable under the original settings. The crash clause (an interrupted re-bucketing never opens with fewer keys) is decided by crash-point enumeration inside the translation (see evidence keys crash_*).",
+            "file-size limit must return ErrIndexWrongFileSize / ErrPrimaryWrongFileSize and leave the contents readable under the original settings. The crash clause (an interrupted re-bucketing never opens with fewer keys) is decided by crash-point enumeration inside the translation (see evidence keys crash_*): every image is opened with the new and with the old bit size, and - when it reads right with the old size - used further (update, removal, insertion), closed and re-bucketed again, and compared with the model.",
             BASE, "4 C09"),
     "C12": (True, "exploration", "schedule exploration of the back-pressure protocol with the real flusher goroutine adopted by the cooperative scheduler; bounded-liveness closure judged by goroutine state",
             "Writers on a store with BurstRate(0) and a pinned flush rate always enter the waiting path; the scheduler interleaves them with the adopted flusher goroutine and explicit Flush tasks at the points measure / decide / register / signal / wait and inside Flush. "
             "After the generated schedule everything runs freely and three more Flush calls complete; a writer that is then still in the channel receive of the wait while the flusher idles in its select and no flush is in progress can never be released - that state, not elapsed time, is the verdict. "
-            "A free-running sub-campaign (rounds of simultaneously released writers) reaches windows without a named point, and a single-writer part (burst rates up to 4000, no Flush issued by the harness) requires each waiting call to be released by the flush it asked for itself (with periodic ticks of 20 us..1 ms meeting the writer's signals); a failed-flush part makes one explicit Flush fail on a stray file while a writer waits and requires the next successful Flush to release it. Liveness can only be checked in this bounded form by generated-input search.",
+            "A free-running sub-campaign (rounds of simultaneously released writers) reaches windows without a named point, and a single-writer part (burst rates up to 4000, no Flush issued by the harness) requires each waiting call to be released by the flush it asked for itself (with periodic ticks of 20 us..1 ms meeting the writer's signals; in a quarter of the cases Store.Start is only called once the first call waits); a failed-flush part makes one explicit Flush fail on a stray file while a writer waits and requires the next successful Flush to release it. Liveness can only be checked in this bounded form by generated-input search.",
             BASE + " Goroutine states are read from runtime.Stack. A run that does not reach a verdict state within 8 s is counted as inconclusive, never as a violation.", "4 C12"),
     "C13": (True, "exploration", "property testing with multiset accounting over histories; concurrent exploration of the freelist package with injected delays at named points",
             "Sequential histories: the multiset of locations that stop being current (overwrite, removal, GC relocation; observed through the public index lookup around every call) must equal the multiset of locations that reach GC "
